@@ -165,6 +165,16 @@ CONFIG["C11"] = dict(
     trusted_base=_GEN_TRUSTED + ["the API listing is extracted from the generated source with go/ast (harness/cmd/genbuild apiOf)"],
 )
 
+CONFIG["C19"] = dict(
+    generated=True,
+    level_text="The renderers are modelled as functions to per-signal records (Model/Render.lean). Kernel-checked theorems (Props/C19.lean) prove that each rendering has one record per descriptor signal in descriptor order and that the raw value carried is the C01 read of the signal's layout over the full 64-bit range (unsigned decimal up to 2^64-1 in JSON, two's-complement hex in text). On every run the real output of cantext (compact and multi-line), canjson and the candebug HTTP handler (httptest) for messages of compiled generated packages is tokenised into the same records (floats by parse-back to bits, durations to ns), compared with the model, and the JSON checked with json.Valid.",
+    level_note="strconv float formatting, encoding/json escaping, net/http and time are not modelled (parse-back / canonicalised). Translation validation per generated program. " + "; ".join(_GEN_TRUSTED),
+    level="proof",
+    trivial=r"^(err|not-in-class)$",
+    rule="one case = one message state (a valid frame unmarshalled into a generated message) rendered four ways",
+    trusted_base=_GEN_TRUSTED,
+)
+
 PRE_PROVE = {}
 def _unicode_tie(work, impl):
     """the committed unicode tables equal what the toolchain's unicode package says now"""
